@@ -30,7 +30,7 @@ fn c14_q_push_column_2_letters() {
 }
 #[kani::proof]
 #[kani::unwind(5)]
-fn c14_q_push_column_3_letters_to_xfd() {
+fn c14_t_push_column_3_letters_to_xfd() {
     push_column_case(702, 16384, 3)
 }
 #[kani::proof]
